@@ -234,6 +234,7 @@ def b_csrdec(case, rng, P):
             dec.add(sub, name=rng.choice([None, f"w{i}", ("w", i)]),
                     addr=None if rng.random() < 0.6 else rng.randrange(1 << aw) // (1 << k) * (1 << k))
             subs.append(sub)
+            late_resource(rng, P, f"s{i}", sub.memory_map)
         except (ValueError, TypeError) as e:
             P.setdefault("refused_adds", []).append(judge_exception(e))
             refused.append(sub)
@@ -271,6 +272,7 @@ def b_wbdec(case, rng, P):
         try:
             dec.add(sub, name=rng.choice([None, f"w{i}"]), sparse=sparse)
             subs.append(sub)
+            late_resource(rng, P, f"s{i}", sub.memory_map, csr_map=False)
         except (ValueError, TypeError) as e:
             P.setdefault("refused_adds", []).append(judge_exception(e))
             refused.append(sub)
@@ -329,6 +331,7 @@ def b_wbbridge(case, rng, P):
     cb = csr.Interface(addr_width=I(caw), data_width=I(cdw), path=("csr",))
     cb.memory_map = MemoryMap(addr_width=caw, data_width=cdw)
     dut = WishboneCSRBridge(cb, data_width=I(wdw), name=rng.choice([None, "csr", ("csr", 0)]))
+    late_resource(rng, P, "csr side of the bridge", cb.memory_map)
     return dut, [cb], lambda: map_meta(dut.wb_bus.memory_map), None
 
 
@@ -394,6 +397,32 @@ def b_action(case, rng, P):
     return cls(shape), [], lambda: None, None
 
 
+class LateRes(wiring.Component):
+    def __init__(self):
+        super().__init__({})
+
+
+def late(rng, P, what, fn, p=0.4):
+    """A mutation attempted after the component that consumed the object exists (a source added to the event map of
+    a built monitor, a resource added to the memory map a bridge or decoder already took): it is either refused
+    descriptively, or accepted - and then the component still has to elaborate."""
+    if rng.random() >= p:
+        return
+    try:
+        fn()
+        P.setdefault("late_accepted", []).append(what)
+    except (ValueError, TypeError) as e:
+        P.setdefault("refused_adds", []).append(judge_exception(e))
+        P["late_refused"] = P.get("late_refused", 0) + 1
+
+
+def late_resource(rng, P, what, mm, csr_map=True):
+    # on a CSR map the late resource is a well-formed register (anything else is not a register layout at all and
+    # outside the property's domain); a Wishbone-side map takes any component
+    res = muxwork.Probe(rng.choice([1, mm.data_width]), rng.choice(["r", "w", "rw"])) if csr_map else LateRes()
+    late(rng, P, what, lambda: mm.add_resource(res, name=("late", what), size=1))
+
+
 def mk_event_map(rng, P):
     n = rng.choice([0, 1, 2, 5, 9, 17])
     trig = [rng.choice(["level", "rise", "fall"]) for _ in range(n)]
@@ -414,6 +443,7 @@ def ev_meta(em):
 def b_evmon(case, rng, P):
     em, srcs = mk_event_map(rng, P)
     dut = event.Monitor(em, trigger=rng.choice(["level", "rise", "fall"]))
+    late(rng, P, "event source", lambda: em.add(event.Source(trigger=rng.choice(["level", "rise"]), path=("late",))))
     return dut, srcs, lambda: ev_meta(em), None
 
 
@@ -423,6 +453,8 @@ def b_csrevmon(case, rng, P):
     al = rng.choice([0, 0, 1, 3])
     P.update(dw=dw, al=al)
     dut = EventMonitor(em, trigger=rng.choice(["level", "rise"]), data_width=I(dw), alignment=I(al))
+    late(rng, P, "event source", lambda: em.add(event.Source(trigger=rng.choice(["level", "rise"]), path=("late",))))
+    late_resource(rng, P, "evmon", dut.bus.memory_map)
     return dut, srcs, lambda: (ev_meta(em), map_meta(dut.bus.memory_map)), None
 
 
@@ -433,6 +465,7 @@ def b_gpio(case, rng, P):
     stages = rng.choice([0, 1, 2, 3])
     P.update(pins=pins, dw=dw, aw=aw, stages=stages)
     dut = gpio.Peripheral(pin_count=I(pins), addr_width=I(aw), data_width=I(dw), input_stages=I(stages))
+    late_resource(rng, P, "gpio", dut.bus.memory_map)
     return dut, [], lambda: map_meta(dut.bus.memory_map), None
 
 
@@ -504,6 +537,8 @@ def run_case(case):
             dut, extra, meta_fn, finding = BUILDERS[kind](case, rng, P)
         mon.count("constructed")
         mon.count("refused_interfaces_rehomed", P.get("refused_rehomed", 0))
+        mon.count("late_mutations_refused", P.pop("late_refused", 0))
+        mon.count("late_mutations_accepted", len(P.get("late_accepted", [])))
         mon.count("construct_steps", sc.steps)
     except Exception as e:
         verdict, info = judge_exception(e)
